@@ -20,6 +20,7 @@ CONSTANTS
   EShift = 12
   SNum = {1,3,25}
   SDen = {1,10}
+  Args = "read_only"
   Export = TRUE
 INVARIANT ZOk
 INVARIANT TZOk
@@ -32,6 +33,7 @@ INVARIANT LinArgsInv
 INVARIANT TextInv
 INVARIANT SpaceInv
 INVARIANT DefaultInv
+INVARIANT ArgsFrameInv
 INVARIANT FitsInv
 CONSTRAINT Emit
 CHECK_DEADLOCK FALSE
